@@ -44,6 +44,9 @@ def faults(quick: bool):
     for rid, _, defs in sel_d:
         for where in ("main", "import", "version"):
             out.append(("rule:%s@%s" % (rid, where), ("rule", where, defs)))
+    for rid, _, defs in C09.DEF_RULES:
+        if (rid, defs) not in [(a, c) for a, b, c in sel_d] and "Lib." not in defs:
+            out.append(("rule:%s@import" % rid, ("rule", "import", defs)))
     out.append(("evolution:removed-step", ("files", {"main/model.yml": BREAKING_MAIN})))
     out.append(("evolution:enum-changed", ("files", {"main/model.yml": ENUM_CHANGE_MAIN, "v0/model.yml": ENUM_CHANGE_V0})))
     out.append(("evolution:incompatible-version-listed-first", ("files", {"main/model.yml": BREAKING_MAIN, "v1/_package.yml": "namespace: Main\nimports:\n  - ../lib\n", "v1/model.yml": BREAKING_MAIN},
@@ -128,10 +131,13 @@ def run(ctx):
     ctx.assumptions = ["HOME is a scratch directory outside the snapshot (yardl creates ~/.yardl/cache at start-up)",
                        "the pre-fault tree generates successfully (checked per configuration)"]
     jobs = []
+    n_base_faults = len([1 for fid, _ in fl]) - len([1 for rid, _, defs in C09.DEF_RULES]) + len(C09.DEF_RULES[::4])
     for fi, (fid, fault) in enumerate(fl):
         for ci, cfg in enumerate(cfgs):
             for si, st in enumerate(states):
                 if quick and (fi + ci + si) % 3 != 0:
+                    continue
+                if quick and fid.endswith("@import") and fi >= n_base_faults and (ci, si) != (0, 1):
                     continue
                 jobs.append((fid, fault, cfg, st))
 
